@@ -13,7 +13,7 @@ from pyvc import theory as T
 from pyvc.spec import Contract
 from pyvc.terms import AND, IMP, OR, Bool, Int, Key, Sym, Val, VInt, VNone, forall, is_VInt, is_VNone, iv, to_z3
 from pyvc.tracksmodel import a_, b_, k_
-from pyvc.values import ClassVal, Instance, PyRaise, SymDict, exc_names
+from pyvc.values import ClassVal, Instance, PyRaise, SymDict, exc_names  # noqa
 from pyvc.verify import repo
 
 from . import common as C
@@ -95,17 +95,30 @@ class UserAction(Contract):
         if self.name == "UserAddNode":
             has, at = C.dict_view(self.attrs)
             K = W.K
-            I.ctx.assume(AND(IMP(has(K.tk), is_VInt(at(K.tk))), IMP(has(K.trk), is_VInt(at(K.trk))),
-                             IMP(has(K.lk), OR(is_VInt(at(K.lk)), is_VNone(at(K.lk))))))
+            I.ctx.assume(AND(IMP(has(K.tk), is_VInt(at(K.tk))), IMP(has(K.trk), is_VInt(at(K.trk)))))
+            # the lineage of a new node is derived by the action (attributes "must contain time and track_id")
+            I.ctx.assume(z3.Not(has(K.lk)))
 
     def run(self, I, cfg):
         ctx = I.ctx
         W = C.world(I, has_seg=cfg.get("seg", False), lineage=True, inv=cfg.get("inv", ("forest", "trackids", "b1", "b2", "segfacts")))
+        W.with_lineage = bool(cfg.get("lineage_inv", False))
+        if W.with_lineage:
+            for lbl, f in T.LINEAGE(W.v0, W.K):
+                ctx.assume(IMP(W.act["lineage"], f), "inv." + lbl)
+            ctx.assume(IMP(W.act["lineage"], forall([a_], IMP(W.v0.N(a_), iv(T.lid(W.v0, W.K, a_)) <= W.maxL()))))
         C.install_callsite_contracts(I, W)
         P.install_loopspecs(I, W)
         P.install_prim_contracts(I, W)
+        if self.name in ("UserSwapPredecessors", "UserAddNode", "UserAddEdge"):
+            c = NestedEdgeEdit(W, "UserDeleteEdge")
+            ctx.contracts[c.qualname] = c
+        if self.name == "UserSwapPredecessors":
+            c = NestedEdgeEdit(W, "UserAddEdge")
+            ctx.contracts[c.qualname] = c
         args, kw = self.make_args(I, W, cfg)
         self.assume_requires(I, W)
+        self.s0 = C.Snap(W, I)
         out = construct(I, CLASSES[self.name], args, kw)
         self.check(I, W, out)
         return out
@@ -140,9 +153,127 @@ class UserAction(Contract):
         else:
             ok_e = len(em) == 1 and (len(em[0]) == 0 or em[0][0] is None)
             ctx.oblige(f"C20/{q}/ensures:one-refresh-iff-top-level", z3.If(top, z3.BoolVal(ok_e), z3.BoolVal(len(em) == 0)), props=("C20",))
-        # C03: the result is again a forward-in-time binary forest
-        for lbl, f in T.FOREST(v1, K):
-            ctx.oblige(f"C03/{q}/ensures:{lbl}", f, props=("C03",))
+        if self.name in ("UserDeleteEdge", "UserAddEdge"):
+            s0x, s1x = self.s0, C.Snap(W, I)
+            u, w = self.named
+            if self.name == "UserDeleteEdge":
+                for lbl, f, props in edge_edit_shape(W, s0x, s1x, u, w, False, I):
+                    ctx.oblige(f"{q}/shape:{lbl}", f, props=props)
+            else:
+                for lbl, f, props in edge_edit_shape(W, s0x, s1x, u, w, True, I):
+                    ctx.oblige(f"{q}/shape(force=False):{lbl}", IMP(z3.Not(self.force), f), props=props)
+        # C03 forest, C04 track ids = segments (local form T1 & T2; global form by lemma M2),
+        # C06 lookups agree with the graph and maxima dominate
+        for lbl, f, props in inv_clauses(W, C.Snap(W, I)):
+            ctx.oblige(f"{props[0]}/{q}/ensures:{lbl}", f, props=props, drop=DROP.get(lbl.split(".")[0] if not lbl.startswith("C06.B2.lin") else "C05", ()))
+
+
+# axiom scoping (DESIGN 3.5): hypotheses a clause family does not need are left out of its obligations
+DROP = {
+    "C03": ("cache.", "inv.C06.B1", "inv.C05"),
+    "C04": ("cache.", "inv.C06.B1", "inv.C05"),
+    "C05": ("seg", "cache.", "inv.C04", "inv.C06.B1", "inv.C06.B2.trk"),
+    "typing": ("seg", "cache.", "inv.C04", "inv.C06"),
+}
+
+
+def inv_clauses(W, s1):
+    """INV of the post state (the clauses each property owns)"""
+    v1, K, ta = s1.v, W.K, W.ta
+    out = [(lbl, f, ("C03",)) for lbl, f in T.FOREST(v1, K)]
+    out += [(lbl, f, ("C04",)) for lbl, f in T.TRACKIDS(v1, K)]
+    out += [(lbl, f, ("C06",)) for lbl, f in [("C06.B1.trk", forall([C_i, a_], s1.T[1](C_i, a_) == z3.If(AND(v1.N(a_), v1.A(a_, K.trk) == VInt(C_i)), 1, 0)))]]
+    out += [(lbl, f, ("C06",)) for lbl, f in T.B2(v1, K, s1.maxT, None)]
+    out.append(("typing.lineage", forall([a_], OR(is_VInt(T.lid(v1, K, a_)), is_VNone(T.lid(v1, K, a_)))), ("C05",)))
+    if W.with_lineage:
+        out += [(lbl, IMP(W.act["lineage"], f), ("C05",)) for lbl, f in T.LINEAGE(v1, K)]
+        out.append(("C06.B2.lin", IMP(W.act["lineage"], forall([a_], IMP(v1.N(a_), iv(T.lid(v1, K, a_)) <= s1.maxL))), ("C06", "C05")))
+    return out
+
+
+C_i = z3.Int("i!ua")
+
+
+def edge_edit_shape(W, s0, s1, u, w, added, I=None):
+    """what a nested UserDeleteEdge / UserAddEdge(force=False) does besides re-establishing INV"""
+    v0, v1, K = s0.v, s1.v, W.K
+    t0 = lambda n: T.tid(v0, K, n)
+    fresh = VInt(s0.maxT + 1)
+    if added:
+        bel = C.below_of(I, W, view=v0)
+        c = v0.c1(u)
+        exact = z3.If(v0.od(u) == 0,
+                      z3.If(AND(bel(w, a_), t0(a_) == t0(w)), t0(u), t0(a_)),
+                      z3.If(AND(bel(c, a_), t0(a_) == t0(c)), fresh, t0(a_)))
+    else:
+        bel = C.below_of(I, W, view=v1)
+        sib = z3.If(v0.c1(u) == w, v0.c2(u), v0.c1(u))
+        exact = z3.If(v0.od(u) == 1,
+                      z3.If(AND(bel(w, a_), t0(a_) == t0(w)), fresh, t0(a_)),
+                      z3.If(AND(bel(sib, a_), t0(a_) == t0(sib)), t0(u), t0(a_)))
+    exact_tid = ("track-ids-rewritten-exactly-below-the-relabelled-node", forall([a_], T.tid(v1, K, a_) == exact), ("C04", "C01"))
+    if added:
+        shape = P.struct_edge_added(s0, s1, u, w)
+        ae = ("other-edge-attrs-unchanged", forall([a_, b_, k_], IMP(z3.Not(AND(a_ == u, b_ == w)), v1.Ae(a_, b_, k_) == v0.Ae(a_, b_, k_))), ("C01",))
+    else:
+        shape = P.struct_edge_removed(s0, s1, u, w)[:3]
+        ae = ("other-edge-attrs-unchanged", forall([a_, b_, k_], v1.Ae(a_, b_, k_) == z3.If(AND(a_ == u, b_ == w), VNone, v0.Ae(a_, b_, k_))), ("C01",))
+    return shape + [
+        ae, exact_tid,
+        ("only-track-and-lineage-ids-change", forall([a_, k_], IMP(AND(k_ != K.trk, k_ != K.lk), v1.A(a_, k_) == v0.A(a_, k_))), ("C01", "C04")),
+        ("max-track-id-not-lowered", s1.maxT >= s0.maxT, ("C06",)),
+    ] + P.frames(s0, s1, ["N", "Seg"])
+
+
+class NestedEdgeEdit(Contract):
+    """UserDeleteEdge / UserAddEdge(force=False) used as sub-actions (_top_level=False): callers see
+    INV re-established plus the shape of the edit; both are proved of the real constructors in
+    their own units (clauses C03/C04/C06 and `shape:*`)."""
+
+    def __init__(self, W, name):
+        self.W, self.name = W, name
+        self.qualname = CLASSES[name] + ".__init__"
+
+    def apply(self, I, args, kw):
+        W, ctx = self.W, I.ctx
+        cls = repo().get_class(CLASSES[self.name])
+        node = cls.find("__init__")[1]
+        inst = Instance(cls)
+        env = I.bind_args(node, [inst] + list(args), kw, lambda d: I.eval_in_module(d, cls.module))
+        top = env["_top_level"]
+        if not (top is False):
+            raise C.Unsupported("nested contract used with _top_level != False")
+        if self.name == "UserAddEdge" and not (env["force"] is False):
+            raise C.Unsupported("nested UserAddEdge contract only for force=False")
+        u, w = (to_z3(x, Int) for x in env["edge"])
+        s0 = C.Snap(W, I)
+        K = W.K
+        k = ctx.ghost.setdefault("nested_calls", 0)
+        ctx.ghost["nested_calls"] += 1
+        tag = f"{ctx.func}/call#{k}/{self.name}"
+        for lbl, f, props in inv_clauses(W, s0):
+            ctx.oblige(f"{tag}/requires:{lbl}", f, kind="pre", props=props)
+        v0 = s0.v
+        if self.name == "UserDeleteEdge":
+            guard = z3.Not(v0.E(u, w))
+        else:
+            guard = OR(z3.Not(v0.N(u)), z3.Not(v0.N(w)), T.tm(v0, K, u) >= T.tm(v0, K, w), v0.idg(w) > 0, v0.od(u) >= 2)
+        if ctx.branch(guard, f"{self.name} refuses"):
+            from pyvc.values import BuiltinExc
+            exc_cls = repo().get_class("funtracks.exceptions.InvalidActionError")
+            raise PyRaise(Instance(exc_cls, {"forceable": False}))
+        C.havoc_components(I, W, ["E", "od", "idg", "A", "Ae", "T2N", "L2N", "maxT", "maxL"])
+        s1 = C.Snap(W, I)
+        for lbl, f, props in inv_clauses(W, s1) + edge_edit_shape(W, s0, s1, u, w, self.name == "UserAddEdge", I):
+            ctx.assume(f, "inv." + lbl)
+        # lemma step M2': FOREST & T1 & T2 of the new version give the segment facts of its descendant closure
+        B = C.below_of(I, W)
+        for _, f in T.segment_facts(s1.v, K, B.rel):
+            ctx.assume(f, "seg")
+        ctx.ghost.setdefault("lemma_steps", []).append(f"M2' after nested {self.name}")
+        inst.fields.update({"tracks": W.tracks, "actions": []})
+        ctx.ghost["log"].append((self.name,))
+        return inst
 
 
 def units(names=None, cfg=None):
